@@ -18,4 +18,11 @@ def harnesses(ctx, tier):
                           unwind_funcs={"ref_crc32_byte": 9},
                           desc="hash.%s(offset, length) range walker on 2 symbolic blocks vs bitwise reference" % name,
                           bounds="2 blocks x <=3 bytes, base 0..3, gap 0..2, |offset|,|length| < 2^40", functions=["data_" + name], stubs=["yr_object_set_integer sink", "block iterator", "yr_fetch_block_data"]))
+    for f, name, uw in ((1, "minmaxabs", 4), (2, "count", 8)):   # math.mode (256-way scan of the histogram): no verdict in 900 s
+        hs.append(Harness(name="H4_math_" + name, src="c14/mathfn.c", defines=["-DVF_FUNC=%d" % f], includes=inc, unwind=uw, timeout=900,
+                          unwind_funcs={"mode_range": 258, "get_distribution": 8, "memset": 1100} if f > 1 else {},
+                          desc="math.%s on the real math.c vs direct definitions" % name,
+                          bounds="all 64-bit arguments" if f == 1 else "2 blocks x <=3 bytes, |offset|,|length| < 2^40, any probe byte",
+                          functions=["min", "max", "yr_math_abs", "to_number"] if f == 1 else ["count_range" if f == 2 else "mode_range", "get_distribution"],
+                          stubs=["yr_object_set_integer sink", "block iterator"]))
     return hs
